@@ -3,6 +3,7 @@ package main
 import (
 	"fmt"
 	"os"
+	"path/filepath"
 	"runtime"
 	"strings"
 	"sync"
@@ -10,7 +11,9 @@ import (
 	"time"
 
 	"github.com/criyle/go-sandbox/container"
+	"github.com/criyle/go-sandbox/pkg/mount"
 	"github.com/criyle/go-sandbox/pkg/unixsocket"
+	"golang.org/x/sys/unix"
 )
 
 func init() { props["C14"] = runC14 }
@@ -288,6 +291,79 @@ func runC14(res *Result, d *Driver, tier string, seed uint64) {
 					fatal("container: %v", e2)
 				}
 			}
+		}
+	}
+	// a directory shared with the host (a writable bind): somebody outside the container exchanges a regular file and a
+	// directory at one requested path all the time, while batches ask for that path and for an untouched file. Whatever
+	// happens to the first item (the lstat-then-open window is outside the statement), the second item's result must be
+	// the second item's file.
+	{
+		shared, err := os.MkdirTemp("", "verif-c14-shared-")
+		if err == nil {
+			shared, _ = filepath.EvalSymlinks(shared)
+			os.Chmod(shared, 0777)
+			os.WriteFile(shared+"/a", []byte("a"), 0666)
+			os.Mkdir(shared+"/b", 0777)
+			os.WriteFile(shared+"/good", []byte("good"), 0666)
+			var gst syscall.Stat_t
+			syscall.Stat(shared+"/good", &gst)
+			env2, err := newEnv(container.Builder{Mounts: mount.NewBuilder().WithBind(shared, "w", false).WithTmpfs("tmp", "size=4m").Mounts, WorkDir: "/w"})
+			if err == nil {
+				stop := make(chan struct{})
+				done := make(chan struct{})
+				go func() {
+					defer close(done)
+					for {
+						select {
+						case <-stop:
+							return
+						default:
+						}
+						unix.Renameat2(unix.AT_FDCWD, shared+"/a", unix.AT_FDCWD, shared+"/b", unix.RENAME_EXCHANGE)
+					}
+				}()
+				rounds := 600
+				if tier == "thorough" {
+					rounds = 8000
+				}
+				first := map[string]int{}
+				for rd := 0; rd < rounds; rd++ {
+					rs, err := env2.Open([]container.OpenCmd{{Path: "/w/a", Flag: os.O_RDONLY}, {Path: "/w/good", Flag: os.O_RDONLY}})
+					bad := ""
+					if err != nil || len(rs) != 2 {
+						bad = fmt.Sprintf("call failed: err=%v results=%d", err, len(rs))
+					} else {
+						switch {
+						case rs[0].File == nil:
+							first["error"]++
+						default:
+							first["file"]++
+						}
+						if rs[1].File == nil {
+							bad = fmt.Sprintf("item 1 (/w/good, untouched) failed: %v", rs[1].Err)
+						} else {
+							var st syscall.Stat_t
+							if e := syscall.Fstat(int(rs[1].File.Fd()), &st); e != nil || st.Ino != gst.Ino || st.Dev != gst.Dev {
+								bad = fmt.Sprintf("the descriptor returned for item 1 (/w/good) is not /w/good (mode %o, inode %d, want %d); item 0: file=%v err=%v", st.Mode, st.Ino, gst.Ino, rs[0].File != nil, rs[0].Err)
+							}
+						}
+					}
+					for _, r := range rs {
+						if r.File != nil {
+							r.File.Close()
+						}
+					}
+					if bad != "" {
+						res.Mismatch(Mismatch{Kind: "oracle", What: "Open batch while the first item's path is exchanged between a file and a directory from outside: the second item's result is the second item's (C14 index alignment)", Input: fmt.Sprintf("round %d of %d: Open[/w/a (exchanged with a directory all the time), /w/good]", rd, rounds), Impl: bad, Oracle: "violates"})
+						break
+					}
+				}
+				res.Case(fmt.Sprintf("exchange under the batch: first item %v", first), true, "exchange-under-batch")
+				close(stop)
+				<-done
+				env2.Close()
+			}
+			os.RemoveAll(shared)
 		}
 	}
 	// large batches, many times over on one environment: every returned descriptor is still the file of its own item
